@@ -159,7 +159,7 @@ def gen_rr(rng, pool, hi, section):
         rr["cls"] = rng.choice((1, 1, 1, 3, 4, 254, 255, rng.randrange(65536)))
     if t == T_A:
         rr["addr"] = bytes((rng.randrange(256) if hi else rng.randrange(0xC0)) if i == 0 else rng.randrange(256) for i in range(4))
-        if hi and rng.random() < 0.10:
+        if hi and rng.random() < 0.01:
             rr["addr"] = bytes((0xC0, rng.randrange(64), 0, 0))      # 192.0-63.0.0: a perfectly good address
     elif t == T_AAAA:
         if hi:
@@ -441,7 +441,7 @@ def mut_rdlength(rng, m):
     rr = rng.choice(rrs)
     sp = rr["span"]
     b = bytearray(m.wire)
-    new = rng.choice((0, 0, 1, sp["rdlen"] + 1, max(0, sp["rdlen"] - 1), 0xFFFF, rng.randrange(65536), rng.randint(0, 24)))
+    new = rng.choice((0, 1, 2, sp["rdlen"] + 1, max(0, sp["rdlen"] - 1), 0xFFFF, rng.randrange(65536), rng.randint(0, 24)))
     b[sp["rdlen_off"]:sp["rdlen_off"] + 2] = struct.pack(">H", new)
     return bytes(b), "rdlength-%s-%s" % ("zero" if new == 0 else "other", TYPED.get(rr["type"], "gen")), None
 
@@ -515,7 +515,7 @@ def mut_overlong_name(rng, m):
     return bytes(hdr + q + rr_head + out), "name-over-255-via-pointers", None
 
 
-MUTATORS = [(mut_pointer, 30), (mut_counts, 10), (mut_label, 10), (mut_rdlength, 12), (mut_empty_rdata, 4), (mut_type, 10),
+MUTATORS = [(mut_pointer, 30), (mut_counts, 10), (mut_label, 10), (mut_rdlength, 12), (mut_empty_rdata, 1), (mut_type, 10),
             (mut_bytes, 20), (mut_overlong_name, 2)]
 
 
@@ -548,12 +548,14 @@ def gen_random_bytes(rng):
     return bytes(b), "random-bytes"
 
 
-def gen_bomb(rng, size):
+def gen_bomb(rng, size, max_chain=None):
     """pointer-chain message: `chain` two-byte pointers each pointing at the next, ending in a root label, held in
     the RDATA of one unknown-type record; then as many records as fit whose owner name is a pointer to the chain
     head. Every owner name costs `chain` jumps, so total work is chain x records = O(size^2)."""
     body_budget = size - 12
     chain = max(4, (body_budget // 2) // 2)          # half the space for the chain
+    if max_chain:
+        chain = min(chain, max_chain)                # stay below a decoder's per-name hop limit: every name must be walked in full
     # record 0: owner root, type 65280, RDATA = chain
     rr0_head_len = 1 + 10
     chain_off = 12 + rr0_head_len
